@@ -109,6 +109,9 @@ def oracle (c : Ctx) (name : String) (op : List Nat) (pdts : Array Nat) : Option
   if post.aborted then none else
   match name, op with
   | "map", [p, f, fl] => mapCheck c root p f fl "active"
+  | "mapflag", [p, f, i] =>
+    -- the named flag must land on its architectural bit of the hardware entry
+    mapCheck c root p f (1 ||| 2 ^ (archFlagBits.getD i 0)) s!"named-flag-{i}"
   | "maptmp", [f] =>
     if pre.protect && f = pre.zeroFrame then some (chk (post.code = 3 && pre.mem == post.mem) "zero-frame-guard" "temp")
     else (mapCheck c root tempPage f 3 "temp").map (· ++ chk (post.code ≠ 0 || post.val = tempPage) "temp-page" "temp")
